@@ -1,14 +1,31 @@
-// probe
+// Harness c04: property C04 (authorisation and replay protection for executed transactions).
+//
+// Drives, in one process and on transactions signed with real secp256k1 keys:
+//   - the real types.Tx.Validate, key.VerifyTx / VerifyTxWithAddress,
+//   - the real MemPool admission (TxVerifier.Receive = verifyTx + put) of a pool attached to
+//   - a real chain.ChainService (memorydb stores, stub consensus), whose MemPoolSvc slot in the component hub hands
+//     every message synchronously to the real MemPool.Receive / TxVerifier.Receive (MemPoolExist lookups of the block
+//     signature verifier, MemPoolDel after every connected block, MemPoolPut of transactions a reorganisation returns),
+//   - the real block path: ChainService.addBlock -> ValidateBody (parallel signVerifier) -> blockExecutor.execute ->
+//     executeTx ... -> WaitVerifyDone, including side branches and reorganisations with the same tx on both branches,
+//   - the bare executeTx with and without a pool-verified account.
+//
+// Every operation is also given to the Lean model (model-c04) as one line; the model answers with the identity as hash
+// and an ideal signature scheme, the harness tells it who signed which fields and from which fields a hash was computed.
+// Oracle = the property itself, evaluated on the real node after every block: see oracle().
 package main
 
 import (
+	"bytes"
 	"context"
 	"encoding/hex"
-	"errors"
 	"fmt"
 	"math/big"
 	"os"
 	"path/filepath"
+	"sort"
+	"strings"
+	"sync"
 	"time"
 
 	"github.com/aergoio/aergo-actor/actor"
@@ -18,10 +35,14 @@ import (
 	"github.com/aergoio/aergo/v2/config"
 	"github.com/aergoio/aergo/v2/consensus"
 	"github.com/aergoio/aergo/v2/contract"
+	"github.com/aergoio/aergo/v2/contract/name"
 	"github.com/aergoio/aergo/v2/contract/system"
+	"github.com/aergoio/aergo/v2/internal/common"
+	"github.com/aergoio/aergo/v2/internal/enc/proto"
 	"github.com/aergoio/aergo/v2/mempool"
 	"github.com/aergoio/aergo/v2/pkg/component"
 	"github.com/aergoio/aergo/v2/state"
+	"github.com/aergoio/aergo/v2/state/statedb"
 	"github.com/aergoio/aergo/v2/types"
 	"github.com/aergoio/aergo/v2/types/message"
 	"github.com/aergoio/aergo/v2/zz_verif/vh"
@@ -36,9 +57,16 @@ func hx(b []byte) string {
 	return hex.EncodeToString(b)
 }
 
-type stubCons struct {
-	cs *chain.ChainService
+func short(b []byte) string {
+	if len(b) > 4 {
+		b = b[:4]
+	}
+	return hx(b)
 }
+
+// ---------------------------------------------------------------- stub consensus (exported interface only)
+
+type stubCons struct{ cs *chain.ChainService }
 
 func (s *stubCons) SetStateDB(sdb *state.ChainStateDB)                       {}
 func (s *stubCons) IsTransactionValid(tx *types.Tx) bool                     { return true }
@@ -67,19 +95,19 @@ func (stubCcc) MakeConfChangeProposal(req *types.MembershipChange) (*consensus.C
 	return nil, consensus.ErrNotSupportedMethod
 }
 
-// fakeCtx: the part of actor.Context MemPool.Receive / TxVerifier.Receive use (Message, Respond, Sender).
+// fakeCtx: the part of actor.Context that MemPool.Receive / TxVerifier.Receive use (Message, Respond, Sender).
 type fakeCtx struct {
 	actor.Context
 	msg  interface{}
 	resp interface{}
 }
 
-func (c *fakeCtx) Message() interface{}        { return c.msg }
-func (c *fakeCtx) Respond(r interface{})        { c.resp = r }
-func (c *fakeCtx) Sender() *actor.PID           { return nil }
+func (c *fakeCtx) Message() interface{} { return c.msg }
+func (c *fakeCtx) Respond(r interface{}) { c.resp = r }
+func (c *fakeCtx) Sender() *actor.PID    { return nil }
 
-// poolComp stands where the mempool actor stands in the hub: it hands every message to the real
-// MemPool.Receive / TxVerifier.Receive synchronously.
+// poolComp stands where the mempool actor stands in the hub: every message goes synchronously to the real
+// MemPool.Receive; a MemPoolPut goes to the real TxVerifier.Receive (MemPool.Receive would only forward it to that actor).
 type poolComp struct {
 	hub *component.ComponentHub
 	n   *node
@@ -104,13 +132,11 @@ func (r *poolComp) RequestFuture(m interface{}, timeout time.Duration, tip strin
 func (r *poolComp) handle(m interface{}) interface{} {
 	switch x := m.(type) {
 	case *message.MemPoolPut:
-		// MemPool.Receive hands the tx to its verifier actor; that actor's Receive is called directly
-		c := &fakeCtx{msg: x.Tx}
-		r.n.txv.Receive(c)
-		if rsp, ok := c.resp.(*message.MemPoolPutRsp); ok {
-			r.n.reoffer = append(r.n.reoffer, fmt.Sprintf("%s:%v", hx(x.Tx.GetHash())[:8], rsp.Err))
-		}
-		return c.resp
+		err := r.n.admit(x.Tx)
+		r.n.mu.Lock()
+		r.n.reoffer = append(r.n.reoffer, reoffered{x.Tx, err})
+		r.n.mu.Unlock()
+		return &message.MemPoolPutRsp{Err: nil}
 	default:
 		c := &fakeCtx{msg: m}
 		r.n.mp.Receive(c)
@@ -139,7 +165,12 @@ func (r *recorder) RequestFuture(m interface{}, timeout time.Duration, tip strin
 	return f
 }
 
-const nAcct = 4
+// ---------------------------------------------------------------- world: keys, genesis, nodes, producer
+
+const nAcct = 5 // funded accounts; keys[nAcct] is an outsider (valid key, no funds)
+
+var genesisBalance, _ = new(big.Int).SetString("1000000000000000000000", 10)
+var aergo1 = new(big.Int).Exp(big.NewInt(10), big.NewInt(18), nil)
 
 type world struct {
 	keys  []*btcec.PrivateKey
@@ -151,14 +182,15 @@ type world struct {
 
 func newWorld(root string) *world {
 	w := &world{root: root}
-	seed := vh.NewRng(4)
-	for i := 0; i < nAcct; i++ {
+	seed := vh.NewRng(4) // fixed accounts: the same in every run
+	for i := 0; i < nAcct+1; i++ {
 		k, _ := btcec.PrivKeyFromBytes(seed.Bytes(32))
 		w.keys = append(w.keys, k)
 		w.addrs = append(w.addrs, crypto.GenerateAddress(k.PubKey().ToECDSA()))
 	}
 	os.RemoveAll(root)
 	os.MkdirAll(root, 0o755)
+	// what `aergosvr init --genesis` does: a Core on the data directory, InitGenesisBlock, Close
 	w.tmpl = filepath.Join(root, "tmpl")
 	core, err := chain.NewCore("memorydb", w.tmpl, false, 0, &config.DBConfig{})
 	if err != nil {
@@ -177,8 +209,8 @@ func (w *world) genesis() *types.Genesis {
 		Timestamp: 1_600_000_000_000_000_000,
 		Balance:   map[string]string{},
 	}
-	for _, a := range w.addrs {
-		g.Balance[types.EncodeAddress(a)] = "1000000000000000000000"
+	for _, a := range w.addrs[:nAcct] {
+		g.Balance[types.EncodeAddress(a)] = genesisBalance.String()
 	}
 	return g
 }
@@ -201,13 +233,19 @@ func (w *world) initDir(dir string) {
 	}
 }
 
+type reoffered struct {
+	tx  *types.Tx
+	err error
+}
+
 type node struct {
 	w       *world
 	cs      *chain.ChainService
 	mp      *mempool.MemPool
 	txv     *mempool.TxVerifier
 	dir     string
-	reoffer []string
+	mu      sync.Mutex
+	reoffer []reoffered
 }
 
 func (w *world) newNode() *node {
@@ -236,23 +274,34 @@ func (w *world) newNode() *node {
 	if err != nil {
 		panic(err)
 	}
-	n.mp.VerifC04Init(best)
+	n.mp.VerifC04Init(best) // AfterStart: setStateDB(best block)
 	return n
 }
 
-func (n *node) add(b *types.Block) error {
-	err := chain.VerifC04AddBlock(n.cs, b, "peer")
-	for i := 0; i < 2000; i++ {
+func (n *node) settle() {
+	for i := 0; i < 4000; i++ {
 		need, pending := chain.VerifC04VerifyState(n.cs)
 		if !need || pending == 1 {
-			break
+			return
 		}
 		time.Sleep(50 * time.Microsecond)
 	}
+}
+
+func (n *node) close() {
+	n.settle()
+	n.cs.BeforeStop()
+	os.RemoveAll(n.dir)
+}
+
+func (n *node) add(b *types.Block, useMempool bool) error {
+	chain.VerifC04SetSkipMempool(n.cs, !useMempool)
+	err := chain.VerifC04AddBlock(n.cs, b, "peer")
+	n.settle()
 	return err
 }
 
-// admit: what the mempool's verifier actor does with a tx received from RPC/P2P.
+// admit: what the mempool's verifier actor does with a tx received from RPC / P2P / a reorganisation.
 func (n *node) admit(tx *types.Tx) error {
 	c := &fakeCtx{msg: tx}
 	n.txv.Receive(c)
@@ -277,10 +326,10 @@ func (w *world) newProducer() *producer {
 	return &producer{w: w, core: core, gen: g.Block(), ts: g.Timestamp}
 }
 
-func (p *producer) bi(parent *types.Block) *types.BlockHeaderInfo {
-	return types.NewBlockHeaderInfoFromPrevBlock(parent, p.ts+1000, config.AllEnabledHardforkConfig)
-}
+func (p *producer) sdbAt(root []byte) *statedb.StateDB { return p.core.VerifC04SDB().OpenNewStateDB(root) }
 
+// build: a block on parent with these transactions, whatever the executor says about each of them (a failing one
+// stays in the body; the header carries the state the others reach), as a Byzantine producer could send it.
 func (p *producer) build(parent *types.Block, txs []*types.Tx) (*types.Block, []error) {
 	p.ts += 1000
 	bi := types.NewBlockHeaderInfoFromPrevBlock(parent, p.ts, config.AllEnabledHardforkConfig)
@@ -300,64 +349,1094 @@ func (p *producer) build(parent *types.Block, txs []*types.Tx) (*types.Block, []
 		panic(err)
 	}
 	blk := types.NewBlock(bi, append([]byte{}, bs.GetRoot()...), bs.Receipts(), txs, nil, nil)
+	// what a peer sends is the protobuf encoding
+	raw, err := proto.Encode(blk)
+	if err != nil {
+		panic(err)
+	}
+	blk = &types.Block{}
+	if err := proto.Decode(raw, blk); err != nil {
+		panic(err)
+	}
 	blk.BlockHash()
 	return blk, errs
 }
 
-func (w *world) tx(signer int, body *types.TxBody) *types.Tx {
-	tx := &types.Tx{Body: body}
-	if body.GasPrice == nil {
-		body.GasPrice = big.NewInt(0).Bytes()
-	}
-	key.SignTx(tx, w.keys[signer])
-	return tx
+// ---------------------------------------------------------------- error classes (never strings)
+
+var classOf = map[error]string{
+	types.ErrTxFormatInvalid:           "format",
+	types.ErrTxInvalidChainIdHash:      "chainid",
+	types.ErrTxInvalidSize:             "size",
+	types.ErrTxHasInvalidHash:          "hash",
+	types.ErrTxInvalidAmount:           "amount",
+	types.ErrTxInvalidPrice:            "price",
+	types.ErrTxInvalidAccount:          "account",
+	types.ErrTxInvalidRecipient:        "recipient",
+	types.ErrTxInvalidType:             "type",
+	types.ErrTxInvalidPayload:          "payload",
+	types.ErrTxNonceTooLow:             "noncelow",
+	types.ErrTxNonceToohigh:            "noncehigh",
+	types.ErrInsufficientBalance:       "balance",
+	types.ErrTxAlreadyInMempool:        "exists",
+	types.ErrSameNonceAlreadyInMempool: "same",
+	chain.ErrorBlockVerifySign:         "sig",
 }
 
-var aergo1 = new(big.Int).Exp(big.NewInt(10), big.NewInt(18), nil)
+func class(err error) string {
+	if err == nil {
+		return "ok"
+	}
+	if c, ok := classOf[err]; ok {
+		return c
+	}
+	return "x"
+}
+
+// ---------------------------------------------------------------- session
+
+type mtx struct {
+	tid  int
+	tx   *types.Tx
+	kind string
+}
+
+type mblk struct {
+	bid    int
+	parent *mblk
+	height uint64
+	blk    *types.Block
+	tids   []int
+	dead   bool // refused by the node: never built on
+}
+
+type session struct {
+	run     *vh.Run
+	rng     *vh.Rng
+	w       *world
+	p       *producer
+	n       *node
+	txs     []*mtx
+	blks    []*mblk
+	byHash  map[string]*mblk
+	ops     []string
+	cid     []byte // chain-id hash every block of this chain has (all hard forks enabled from block 1)
+	names   []string
+	pooled  map[string]int // carried hash -> tid of the transaction admitted under it
+	nameSeq int
+}
+
+func (s *session) op(line, out string, nontrivial bool) {
+	s.ops = append(s.ops, line+" => "+out)
+	s.run.Op(line, out, nontrivial)
+}
+
+func (s *session) fail(what string) {
+	ops := s.ops
+	if len(ops) > 400 {
+		ops = ops[len(ops)-400:]
+	}
+	s.run.Fail(what, map[string]interface{}{"session": ops})
+}
+
+type sigSpec struct {
+	mode string // "k" key index, "t" copy from tid, "x" raw, "-" none
+	key  int
+	tid  int
+	raw  []byte
+}
+type hashSpec struct {
+	mode string // "self", "t", "x"
+	tid  int
+	raw  []byte
+}
+
+type txSpec struct {
+	body *types.TxBody
+	sig  sigSpec
+	hash hashSpec
+	gov  string // class the governance payload validator answers ("-" = nil / not a governance tx)
+	cmd  string // "-", "c:<namehex>", "u:<namehex>:<tohex>"
+	kind string
+}
+
+// mk builds the real transaction, tells the model how it was made, and registers it.
+func (s *session) mk(sp txSpec) *mtx {
+	tx := &types.Tx{Body: sp.body}
+	sigRef := "-"
+	switch sp.sig.mode {
+	case "k":
+		if err := key.SignTx(tx, s.w.keys[sp.sig.key]); err != nil {
+			panic(err)
+		}
+		sigRef = "k:" + hx(s.w.addrs[sp.sig.key])
+	case "t":
+		tx.Body.Sign = append([]byte{}, s.txs[sp.sig.tid].tx.Body.Sign...)
+		sigRef = fmt.Sprintf("t:%d", sp.sig.tid)
+	case "x":
+		tx.Body.Sign = sp.sig.raw
+		sigRef = "x:" + hx(sp.sig.raw)
+	}
+	hashRef := "self"
+	switch sp.hash.mode {
+	case "self":
+		tx.Hash = tx.CalculateTxHash()
+	case "t":
+		tx.Hash = append([]byte{}, s.txs[sp.hash.tid].tx.Hash...)
+		hashRef = fmt.Sprintf("t:%d", sp.hash.tid)
+	case "x":
+		tx.Hash = sp.hash.raw
+		hashRef = "x:" + hx(sp.hash.raw)
+	}
+	// what a peer / client sends is the protobuf encoding (empty byte fields come back as nil)
+	if raw, err := proto.Encode(tx); err == nil {
+		t2 := &types.Tx{}
+		if proto.Decode(raw, t2) == nil && t2.Body != nil {
+			tx = t2
+		}
+	}
+	m := &mtx{tid: len(s.txs), tx: tx, kind: sp.kind}
+	s.txs = append(s.txs, m)
+	b := tx.Body
+	gov, cmd := sp.gov, sp.cmd
+	if gov == "" {
+		gov = "-"
+	}
+	if cmd == "" {
+		cmd = "-"
+	}
+	if strings.HasPrefix(cmd, "c:") {
+		nm, _ := hex.DecodeString(cmd[2:])
+		known := false
+		for _, x := range s.names {
+			if x == string(nm) {
+				known = true
+			}
+		}
+		if !known {
+			s.names = append(s.names, string(nm))
+		}
+	}
+	line := fmt.Sprintf("tx %d %d %s %s %s %s %d %s %d %s %s %s %d %s %s", m.tid, b.Nonce, hx(b.Account), hx(b.Recipient), hx(b.Amount),
+		hx(b.Payload), b.GasLimit, hx(b.GasPrice), int32(b.Type), hx(b.ChainIdHash), sigRef, hashRef, proto.Size(tx), gov, cmd)
+	s.op(line, "ok", false)
+	s.run.Count("tx-kind:" + sp.kind)
+	return m
+}
+
+func (s *session) bestBlk() *mblk {
+	best, err := s.n.cs.GetBestBlock()
+	if err != nil {
+		panic(err)
+	}
+	return s.byHash[string(best.BlockHash())]
+}
+
+// generation-time knowledge, read from the producer's state at a block (not used by the oracle)
+func (s *session) nonceAt(b *mblk, acct []byte) uint64 {
+	st, err := s.p.sdbAt(b.blk.GetHeader().GetBlocksRootHash()).GetAccountState(types.ToAccountID(acct))
+	if err != nil {
+		panic(err)
+	}
+	return st.GetNonce()
+}
+
+func nameInfo(sdb *statedb.StateDB, nm []byte) (owner, dest []byte) {
+	scs, err := statedb.GetNameAccountState(sdb)
+	if err != nil {
+		panic(err)
+	}
+	return name.GetOwner(scs, nm), name.GetAddress(scs, nm)
+}
+
+func (s *session) acctIdx(a []byte) int {
+	for i, x := range s.w.addrs {
+		if bytes.Equal(x, a) {
+			return i
+		}
+	}
+	return -1
+}
+
+func otherCid(magic string, version int32) []byte {
+	cid := types.NewChainID()
+	cid.Magic = magic
+	cid.Consensus = "sbp"
+	cid.Version = version
+	b, err := cid.Bytes()
+	if err != nil {
+		panic(err)
+	}
+	return common.Hasher(b)
+}
+
+func (s *session) amount() []byte {
+	switch s.rng.Intn(6) {
+	case 0:
+		return nil
+	case 1:
+		return big.NewInt(int64(1 + s.rng.Intn(255))).Bytes()
+	default:
+		return big.NewInt(int64(256 + s.rng.Intn(1000000))).Bytes()
+	}
+}
+
+// genTx: one transaction aimed at being included on top of block tip (or admitted to the pool while tip is best).
+func (s *session) genTx(tip *mblk) *mtx {
+	rng := s.rng
+	w := s.w
+	from := rng.Intn(nAcct)
+	to := (from + 1 + rng.Intn(nAcct-1)) % nAcct
+	next := s.nonceAt(tip, w.addrs[from]) + 1
+	base := func() *types.TxBody {
+		return &types.TxBody{Nonce: next, Account: w.addrs[from], Recipient: w.addrs[to], Amount: s.amount(),
+			Type: types.TxType_TRANSFER, ChainIdHash: s.cid}
+	}
+	self := hashSpec{mode: "self"}
+	own := sigSpec{mode: "k", key: from}
+	sdb := s.p.sdbAt(tip.blk.GetHeader().GetBlocksRootHash())
+	// a registered name (if any) as seen at tip
+	var regName []byte
+	var regOwner []byte
+	for _, nm := range s.names {
+		if o, _ := nameInfo(sdb, []byte(nm)); len(o) > 0 && (regName == nil || rng.Chance(1, 2)) {
+			regName, regOwner = []byte(nm), o
+		}
+	}
+	k := rng.Intn(100)
+	switch {
+	case k < 30:
+		b := base()
+		if rng.Chance(1, 5) {
+			b.Type = types.TxType_NORMAL
+		}
+		if rng.Chance(1, 6) {
+			b.Recipient = w.addrs[from] // self transfer
+		}
+		return s.mk(txSpec{body: b, sig: own, hash: self, kind: "valid-transfer"})
+	case k < 35:
+		b := base()
+		b.Type = types.TxType_CALL // no code at the recipient: run-time failure, nonce still consumed
+		return s.mk(txSpec{body: b, sig: own, hash: self, kind: "call-no-code"})
+	case k < 40:
+		b := base()
+		b.Nonce = next + 1 + uint64(rng.Intn(3))
+		return s.mk(txSpec{body: b, sig: own, hash: self, kind: "nonce-gap"})
+	case k < 45:
+		b := base()
+		if next >= 2 && rng.Chance(2, 3) {
+			b.Nonce = next - 1 - uint64(rng.Intn(int(next-1)))
+		} else {
+			b.Nonce = next - 1
+		}
+		return s.mk(txSpec{body: b, sig: own, hash: self, kind: "nonce-duplicate-or-zero"})
+	case k < 51:
+		other := (from + 1 + rng.Intn(nAcct)) % (nAcct + 1) // may be the outsider key
+		if other == from {
+			other = nAcct
+		}
+		return s.mk(txSpec{body: base(), sig: sigSpec{mode: "k", key: other}, hash: self, kind: "wrong-key"})
+	case k < 57:
+		// a signature moved from another transaction of the same sender
+		donor := s.mk(txSpec{body: base(), sig: own, hash: self, kind: "valid-transfer"})
+		b := base()
+		b.Recipient = w.addrs[(to+1)%nAcct]
+		b.Amount = new(big.Int).Mul(aergo1, big.NewInt(int64(1+rng.Intn(900)))).Bytes()
+		return s.mk(txSpec{body: b, sig: sigSpec{mode: "t", tid: donor.tid}, hash: self, kind: "moved-signature"})
+	case k < 61:
+		b := base()
+		b.ChainIdHash = otherCid("other.chain", types.DecodeChainIdVersion(tip.blk.GetHeader().GetChainID()))
+		return s.mk(txSpec{body: b, sig: own, hash: self, kind: "foreign-chain-id"})
+	case k < 65:
+		b := base()
+		v := []int32{0, 2, 3, 9}[rng.Intn(4)]
+		b.ChainIdHash = common.Hasher(types.MakeChainId(tip.blk.GetHeader().GetChainID(), v))
+		if bytes.Equal(b.ChainIdHash, s.cid) {
+			b.ChainIdHash = common.Hasher(types.MakeChainId(tip.blk.GetHeader().GetChainID(), 1))
+		}
+		return s.mk(txSpec{body: b, sig: own, hash: self, kind: "other-fork-version-chain-id"})
+	case k < 70:
+		b := base()
+		switch rng.Intn(3) {
+		case 0:
+			return s.mk(txSpec{body: b, sig: own, hash: hashSpec{mode: "x", raw: rng.Bytes(32)}, kind: "garbage-hash"})
+		case 1:
+			donor := s.mk(txSpec{body: base(), sig: own, hash: self, kind: "valid-transfer"})
+			b.Amount = big.NewInt(int64(7 + rng.Intn(100000))).Bytes()
+			if bytes.Equal(b.Amount, donor.tx.Body.Amount) {
+				b.Amount = append(b.Amount, 1)
+			}
+			// fields altered after signing and hashing: both the signature and the hash are those of the donor
+			return s.mk(txSpec{body: b, sig: sigSpec{mode: "t", tid: donor.tid}, hash: hashSpec{mode: "t", tid: donor.tid}, kind: "altered-after-hash"})
+		default:
+			return s.mk(txSpec{body: b, sig: sigSpec{mode: "x", raw: rng.Bytes(70)}, hash: self, kind: "garbage-signature"})
+		}
+	case k < 73:
+		b := base()
+		b.Amount = new(big.Int).Add(genesisBalance, new(big.Int).Mul(genesisBalance, big.NewInt(int64(5+rng.Intn(5))))).Bytes()
+		return s.mk(txSpec{body: b, sig: own, hash: self, kind: "overspend"})
+	case k < 77:
+		// same bytes, other field split: Amount=[a,b] Payload=p  ->  Amount=[a] Payload=b‖p  (same hash, same signed digest)
+		b := base()
+		b.Amount = []byte{byte(1 + rng.Intn(200)), byte(rng.Intn(256))}
+		b.Payload = rng.Bytes(1 + rng.Intn(3))
+		donor := s.mk(txSpec{body: b, sig: own, hash: self, kind: "valid-transfer"})
+		c := base()
+		c.Amount = b.Amount[:1]
+		c.Payload = append([]byte{b.Amount[1]}, b.Payload...)
+		return s.mk(txSpec{body: c, sig: sigSpec{mode: "t", tid: donor.tid}, hash: hashSpec{mode: "t", tid: donor.tid}, kind: "field-boundary-shift"})
+	case k < 83:
+		// governance: create a name
+		s.nameSeq++
+		nm := fmt.Sprintf("verifname%03d", s.nameSeq%1000)
+		if len(s.names) > 0 && rng.Chance(1, 4) {
+			nm = s.names[rng.Intn(len(s.names))] // maybe occupied
+		}
+		b := base()
+		b.Type = types.TxType_GOVERNANCE
+		b.Recipient = []byte(types.AergoName)
+		b.Amount = aergo1.Bytes()
+		if rng.Chance(1, 8) {
+			b.Amount = big.NewInt(5).Bytes() // below the name price
+		}
+		b.Payload = []byte(fmt.Sprintf(`{"Name":"v1createName","Args":["%s"]}`, nm))
+		return s.mk(txSpec{body: b, sig: own, hash: self, cmd: "c:" + hx([]byte(nm)), kind: "name-create"})
+	case k < 88:
+		if regName == nil {
+			return s.mk(txSpec{body: base(), sig: own, hash: self, kind: "valid-transfer"})
+		}
+		// governance: hand a name to another account (by its owner, or — refused — by somebody else)
+		oi := s.acctIdx(regOwner)
+		if oi < 0 || rng.Chance(1, 5) {
+			oi = from
+		}
+		b := base()
+		b.Account = w.addrs[oi]
+		b.Nonce = s.nonceAt(tip, w.addrs[oi]) + 1
+		b.Type = types.TxType_GOVERNANCE
+		b.Recipient = []byte(types.AergoName)
+		b.Amount = aergo1.Bytes()
+		newOwner := w.addrs[(oi+1+rng.Intn(nAcct-1))%nAcct]
+		b.Payload = []byte(fmt.Sprintf(`{"Name":"v1updateName","Args":["%s","%s"]}`, regName, types.EncodeAddress(newOwner)))
+		return s.mk(txSpec{body: b, sig: sigSpec{mode: "k", key: oi}, hash: self, cmd: "u:" + hx(regName) + ":" + hx(newOwner), kind: "name-update"})
+	case k < 96:
+		// name sender
+		nm := regName
+		kind := "named-sender-owner"
+		var signer int
+		b := base()
+		if nm == nil || rng.Chance(1, 6) {
+			nm = []byte(fmt.Sprintf("nosuchname%02d", rng.Intn(100)))
+			signer = from
+			b.Nonce = 1
+			b.Amount = nil
+			kind = "named-sender-unregistered"
+		} else {
+			_, dest := nameInfo(sdb, nm)
+			signer = s.acctIdx(regOwner)
+			b.Nonce = s.nonceAt(tip, dest) + 1
+			if signer < 0 {
+				signer = from
+			}
+			if rng.Chance(1, 3) {
+				signer = (signer + 1 + rng.Intn(nAcct)) % (nAcct + 1)
+				kind = "named-sender-not-owner"
+			}
+		}
+		b.Account = nm
+		return s.mk(txSpec{body: b, sig: sigSpec{mode: "k", key: signer}, hash: self, kind: kind})
+	case k < 98:
+		b := base()
+		if regName != nil && rng.Chance(1, 2) {
+			b.Recipient = regName
+			return s.mk(txSpec{body: b, sig: own, hash: self, kind: "recipient-name"})
+		}
+		b.Recipient = []byte("nobodyhere01")
+		return s.mk(txSpec{body: b, sig: own, hash: self, kind: "recipient-unknown-name"})
+	default:
+		b := base()
+		switch rng.Intn(3) {
+		case 0:
+			b.Account = nil
+			return s.mk(txSpec{body: b, sig: own, hash: self, kind: "nil-account"})
+		case 1:
+			b.Type = types.TxType(8 + rng.Intn(3))
+			return s.mk(txSpec{body: b, sig: own, hash: self, kind: "unknown-type"})
+		default:
+			b.Type = types.TxType_GOVERNANCE
+			b.Recipient = []byte(types.AergoName)
+			b.Payload = []byte(`{"Name":"v1nothing","Args":[]}`)
+			return s.mk(txSpec{body: b, sig: own, hash: self, gov: "payload", kind: "bad-governance-payload"})
+		}
+	}
+}
+
+func (s *session) opValidate(m *mtx) {
+	cid := s.cid
+	switch s.rng.Intn(5) {
+	case 0:
+		cid = otherCid("other.chain", 0)
+	case 1:
+		cid = m.tx.Body.ChainIdHash
+	}
+	pub := s.rng.Chance(1, 4)
+	err := types.NewTransaction(m.tx).Validate(cid, pub)
+	p := "0"
+	if pub {
+		p = "1"
+	}
+	s.op(fmt.Sprintf("validate %d %s %s", m.tid, hx(cid), p), class(err), err == nil)
+	s.run.Count("validate=" + class(err))
+	// oracle: accepted => bound to the chain id hash asked for, and the carried hash is the hash of the body
+	if err == nil && (!bytes.Equal(m.tx.Body.ChainIdHash, cid) || !bytes.Equal(m.tx.Hash, m.tx.CalculateTxHash())) {
+		s.fail("Validate accepted a transaction bound to another chain id hash or carrying a hash that is not its own")
+	}
+}
+
+func (s *session) opVerify(m *mtx) {
+	if m.tx.Body == nil {
+		return
+	}
+	okStr := func(e error) string {
+		if e == nil {
+			return "ok"
+		}
+		return "fail"
+	}
+	if s.rng.Chance(1, 2) {
+		err := key.VerifyTx(m.tx)
+		s.op(fmt.Sprintf("vtx %d", m.tid), okStr(err), err == nil)
+		s.run.Count("vtx=" + okStr(err))
+	} else {
+		a := s.w.addrs[s.rng.Intn(nAcct+1)]
+		err := key.VerifyTxWithAddress(m.tx, a)
+		s.op(fmt.Sprintf("vaddr %d %s", m.tid, hx(a)), okStr(err), err == nil)
+		s.run.Count("vaddr=" + okStr(err))
+	}
+}
+
+func (s *session) opBVerify(m *mtx) {
+	use := s.rng.Chance(1, 2)
+	hit, err := chain.VerifC04VerifyTx(s.n.cs, m.tx, use)
+	out := "ok"
+	if err != nil {
+		out = "fail"
+	} else if hit {
+		out = "hit"
+	}
+	u := "0"
+	if use {
+		u = "1"
+	}
+	s.op(fmt.Sprintf("bverify %d %s", m.tid, u), out, err == nil)
+	s.run.Count("bverify=" + out)
+}
+
+// admitClass: the class of TxVerifier.Receive's answer. The signature stage is told apart from the rest by asking
+// the real verifyTx alone (it has no side effect on the pool).
+func (s *session) admitClass(tx *types.Tx, err error) string {
+	if err == nil {
+		return "ok"
+	}
+	if c, ok := classOf[err]; ok {
+		return c
+	}
+	if verr := s.n.mp.VerifC04VerifyTx(types.NewTransaction(tx)); verr != nil {
+		return "sig"
+	}
+	return "x"
+}
+
+func (s *session) opAdmit(m *mtx) {
+	best := s.bestBlk()
+	err := s.n.admit(m.tx)
+	out := s.admitClass(m.tx, err)
+	s.op(fmt.Sprintf("admit %d", m.tid), out, err == nil)
+	s.run.Count("admit=" + out)
+	if err == nil {
+		s.pooled[string(m.tx.Hash)] = m.tid
+		s.oracleAdmitted(m.tx, best, "admitted")
+	}
+}
+
+// oracleAdmitted: a transaction the pool took must be authorised for the state the pool looks at.
+func (s *session) oracleAdmitted(tx *types.Tx, best *mblk, how string) {
+	root := best.blk.GetHeader().GetBlocksRootHash()
+	sdb := s.n.cs.SDB().OpenNewStateDB(root)
+	_, accept := s.n.mp.VerifC04ChainIdHashes()
+	if !bytes.Equal(tx.Body.ChainIdHash, accept) || !bytes.Equal(accept, s.cid) {
+		s.fail("pool " + how + " a transaction bound to another chain id hash")
+	}
+	if !bytes.Equal(tx.Hash, tx.CalculateTxHash()) {
+		s.fail("pool " + how + " a transaction whose carried hash is not the hash of its body")
+	}
+	acct := tx.Body.Account
+	var verr error
+	if len(acct) <= types.NameLength {
+		_, dest := nameInfo(sdb, acct)
+		acct = dest
+		verr = key.VerifyTxWithAddress(tx, dest)
+	} else {
+		verr = key.VerifyTx(tx)
+	}
+	if verr != nil {
+		s.fail("pool " + how + " a transaction without a valid signature of its sender")
+	}
+	st, err := sdb.GetAccountState(types.ToAccountID(acct))
+	if err != nil {
+		panic(err)
+	}
+	if tx.Body.Nonce <= st.GetNonce() {
+		s.fail("pool " + how + " a transaction whose nonce is not above the sender's state nonce")
+	}
+}
+
+func (s *session) execOn(m *mtx, verified []byte) (string, bool) {
+	best, err := s.n.cs.GetBestBlock()
+	if err != nil {
+		panic(err)
+	}
+	sdb := s.n.cs.SDB()
+	bs := state.NewBlockState(sdb.OpenNewStateDB(best.GetHeader().GetBlocksRootHash()), state.SetPrevBlockHash(best.BlockHash()))
+	bs.SetGasPrice(system.GetGasPrice())
+	bi := types.NewBlockHeaderInfoFromPrevBlock(best, s.p.ts+1, config.AllEnabledHardforkConfig)
+	bs.Receipts().SetHardFork(config.AllEnabledHardforkConfig, bi.No)
+	before := map[int]uint64{}
+	for i, a := range s.w.addrs {
+		st, _ := state.GetAccountState(a, bs.StateDB)
+		before[i] = st.Nonce()
+	}
+	t := types.NewTransaction(m.tx)
+	if len(verified) > 0 {
+		t.SetVerifedAccount(verified)
+	}
+	xerr := chain.VerifC04ExecuteTx(stubCcc{}, bs, t, bi, contract.ChainService)
+	if xerr != nil {
+		if xerr == types.ErrSignNotMatch {
+			return "rej:sigmismatch", false
+		}
+		return "rej:" + class(xerr), false
+	}
+	who := "????"
+	for i, a := range s.w.addrs {
+		st, _ := state.GetAccountState(a, bs.StateDB)
+		if st.Nonce() != before[i] {
+			who = short(a)
+			// oracle: the consumed nonce is exactly the previous one plus one
+			if st.Nonce() != before[i]+1 || st.Nonce() != m.tx.Body.Nonce {
+				s.fail("executeTx moved an account's nonce by something else than +1 to the transaction's nonce")
+			}
+		}
+	}
+	if who == "????" {
+		// sender outside the funded accounts (e.g. an unregistered name: the empty account)
+		st, _ := state.GetAccountState(nil, bs.StateDB)
+		if st.Nonce() == m.tx.Body.Nonce {
+			who = "-"
+		}
+	}
+	status := "S"
+	rs := bs.Receipts().Get()
+	if len(rs) == 1 && rs[0].Status == "ERROR" {
+		status = "F"
+	}
+	return fmt.Sprintf("ok %s %d %s", who, m.tx.Body.Nonce, status), true
+}
+
+func (s *session) opExec(m *mtx) {
+	var verified []byte
+	switch s.rng.Intn(4) {
+	case 0:
+		verified = s.w.addrs[s.rng.Intn(nAcct)]
+	case 1:
+		// what the pool would have attached: the address the sender field resolves to now
+		best := s.bestBlk()
+		if len(m.tx.Body.Account) <= types.NameLength {
+			_, verified = nameInfo(s.n.cs.SDB().OpenNewStateDB(best.blk.GetHeader().GetBlocksRootHash()), m.tx.Body.Account)
+		}
+	}
+	out, ok := s.execOn(m, verified)
+	s.op(fmt.Sprintf("exec %d %s", m.tid, hx(verified)), out, ok)
+	s.run.Count("exec=" + strings.SplitN(out, " ", 2)[0])
+}
+
+func (s *session) stateLine() string {
+	best := s.bestBlk()
+	sdb := s.n.cs.SDB().OpenNewStateDB(best.blk.GetHeader().GetBlocksRootHash())
+	var parts []string
+	accts := append([][]byte{}, s.w.addrs[:nAcct]...)
+	accts = append(accts, []byte(types.AergoName))
+	for _, a := range accts {
+		st, err := sdb.GetAccountState(types.ToAccountID(a))
+		if err != nil {
+			panic(err)
+		}
+		parts = append(parts, fmt.Sprintf("%s:%d:%s", short(a), st.GetNonce(), new(big.Int).SetBytes(st.GetBalance()).String()))
+	}
+	var nms []string
+	for _, nm := range s.names {
+		o, d := nameInfo(sdb, []byte(nm))
+		if len(o) == 0 && len(d) == 0 {
+			nms = append(nms, hx([]byte(nm))+"=-")
+		} else {
+			nms = append(nms, fmt.Sprintf("%s=%s/%s", hx([]byte(nm)), short(o), short(d)))
+		}
+	}
+	return fmt.Sprintf("best=%d %s | %s", best.bid, strings.Join(parts, " "), strings.Join(nms, " "))
+}
+
+func (s *session) poolLine() string {
+	length, _ := s.n.mp.VerifC04Len()
+	var tids []int
+	for h, tid := range s.pooled {
+		if s.n.mp.VerifC04Exist([]byte(h)) != nil {
+			tids = append(tids, tid)
+		}
+	}
+	sort.Ints(tids)
+	var ss []string
+	for _, t := range tids {
+		ss = append(ss, fmt.Sprint(t))
+	}
+	return fmt.Sprintf("len=%d %s", length, strings.Join(ss, ","))
+}
+
+func (s *session) opState() {
+	s.op("state", s.stateLine(), true)
+	s.op("pool", s.poolLine(), true)
+}
+
+// opBlock: build a block on parent with the given transactions, submit it, answer what the node did.
+func (s *session) opBlock(parent *mblk, txs []*mtx, useMempool bool, shape string) *mblk {
+	var raw []*types.Tx
+	var tids []string
+	b := &mblk{bid: len(s.blks), parent: parent, height: parent.height + 1}
+	for _, m := range txs {
+		raw = append(raw, m.tx)
+		tids = append(tids, fmt.Sprint(m.tid))
+		b.tids = append(b.tids, m.tid)
+	}
+	blk, _ := s.p.build(parent.blk, raw)
+	b.blk = blk
+	s.blks = append(s.blks, b)
+	s.byHash[string(blk.BlockHash())] = b
+
+	bestBefore := s.bestBlk()
+	rootBefore := append([]byte{}, s.n.cs.SDB().GetRoot()...)
+	s.n.reoffer = nil
+	u := "0"
+	if useMempool {
+		u = "1"
+	}
+	line := strings.TrimSpace(fmt.Sprintf("block %d %d %s %s", b.bid, parent.bid, u, strings.Join(tids, " ")))
+	s.run.Pending(line)
+	err := s.n.add(blk, useMempool)
+	bestAfter := s.bestBlk()
+	out := ""
+	switch {
+	case err != nil:
+		cause := err
+		if c := chain.VerifC04ReorgCause(err); c != nil {
+			cause = c
+		}
+		out = "rej:" + class(cause)
+		b.dead = true
+		// a dead side branch: everything on it above the main chain is abandoned too
+		for x := parent; x != nil && !s.onMain(x, bestAfter); x = x.parent {
+			x.dead = true
+		}
+		// oracle: a refused block changes nothing
+		if bestAfter != bestBefore || !bytes.Equal(rootBefore, s.n.cs.SDB().GetRoot()) {
+			s.fail("a refused block changed the best block or the state root")
+		}
+	case bestAfter == b && parent == bestBefore:
+		out = "ok"
+	case bestAfter == b:
+		var rs []string
+		type rv struct {
+			tid int
+			s   string
+		}
+		var l []rv
+		for _, r := range s.n.reoffer {
+			tid := s.tidOfReoffered(r.tx, bestBefore, bestAfter)
+			c := s.admitClass(r.tx, r.err)
+			l = append(l, rv{tid, c})
+			if r.err == nil {
+				s.pooled[string(r.tx.Hash)] = tid
+				s.oracleAdmitted(r.tx, bestAfter, "took back (after a reorganisation)")
+				s.run.Count("reoffer=taken")
+			} else {
+				s.run.Count("reoffer=" + c)
+			}
+		}
+		sort.Slice(l, func(i, j int) bool { return l[i].tid < l[j].tid })
+		for _, x := range l {
+			rs = append(rs, fmt.Sprintf("%d=%s", x.tid, x.s))
+		}
+		if len(rs) == 0 {
+			rs = []string{"-"}
+		}
+		out = "ok reorg " + strings.Join(rs, ",")
+		s.run.Count("reorg")
+	default:
+		out = "stored"
+	}
+	s.op(line, out, err == nil)
+	s.run.Count("block:" + shape + "=" + strings.SplitN(out, " ", 2)[0])
+	s.oracle()
+	s.opState()
+	return b
+}
+
+func (s *session) onMain(b *mblk, best *mblk) bool {
+	for x := best; x != nil; x = x.parent {
+		if x == b {
+			return true
+		}
+	}
+	return false
+}
+
+// tidOfReoffered: which transaction of the abandoned branch this is (by pointer-independent content: the carried hash).
+func (s *session) tidOfReoffered(tx *types.Tx, oldBest, newBest *mblk) int {
+	for x := oldBest; x != nil && !s.onMain(x, newBest); x = x.parent {
+		for _, tid := range x.tids {
+			if bytes.Equal(s.txs[tid].tx.Hash, tx.Hash) {
+				return tid
+			}
+		}
+	}
+	return -1
+}
+
+// oracle: the property, on the node's main chain as the node itself reports it.
+func (s *session) oracle() {
+	cs := s.n.cs
+	best, err := cs.GetBestBlock()
+	if err != nil {
+		panic(err)
+	}
+	var chainBlocks []*types.Block
+	for b := best; b.BlockNo() > 0; {
+		chainBlocks = append(chainBlocks, b)
+		p, err := cs.GetBlock(b.GetHeader().GetPrevBlockHash())
+		if err != nil {
+			s.fail("main chain is not linked back to genesis")
+			return
+		}
+		b = p
+	}
+	if len(chainBlocks) == 0 {
+		return
+	}
+	gen, _ := cs.GetBlock(chainBlocks[len(chainBlocks)-1].GetHeader().GetPrevBlockHash())
+	nonces := map[string]uint64{}
+	seen := map[string]bool{}
+	parent := gen
+	ntx := 0
+	for i := len(chainBlocks) - 1; i >= 0; i-- {
+		b := chainBlocks[i]
+		sdb := cs.SDB().OpenNewStateDB(parent.GetHeader().GetBlocksRootHash())
+		cidHash := common.Hasher(b.GetHeader().GetChainID())
+		for _, tx := range b.GetBody().GetTxs() {
+			ntx++
+			acct := tx.Body.Account
+			var verr error
+			if len(acct) <= types.NameLength {
+				owner, dest := nameInfo(sdb, acct)
+				verr = key.VerifyTxWithAddress(tx, owner)
+				acct = dest
+			} else {
+				verr = key.VerifyTx(tx)
+			}
+			if verr != nil {
+				s.fail(fmt.Sprintf("a transaction without a valid signature of its sender (or of the owner of the sender name) is on the main chain (block %d)", b.BlockNo()))
+			}
+			if !bytes.Equal(tx.Body.ChainIdHash, cidHash) {
+				s.fail(fmt.Sprintf("a transaction bound to another chain id hash is on the main chain (block %d)", b.BlockNo()))
+			}
+			if !bytes.Equal(tx.Hash, tx.CalculateTxHash()) {
+				s.fail("a transaction whose carried hash is not the hash of its body is on the main chain")
+			}
+			if seen[string(tx.Hash)] {
+				s.fail(fmt.Sprintf("transaction hash %s executed twice along the main chain", short(tx.Hash)))
+			}
+			seen[string(tx.Hash)] = true
+			k := string(acct)
+			if tx.Body.Nonce != nonces[k]+1 {
+				s.fail(fmt.Sprintf("account %s executed nonce %d after %d on the main chain (block %d): gap or repeat", short(acct), tx.Body.Nonce, nonces[k], b.BlockNo()))
+			}
+			nonces[k] = tx.Body.Nonce
+		}
+		parent = b
+	}
+	// the state agrees: every account's nonce is the number of transactions it executed; nobody else's nonce moved
+	sdb := cs.SDB().OpenNewStateDB(best.GetHeader().GetBlocksRootHash())
+	for _, a := range s.w.addrs {
+		st, err := sdb.GetAccountState(types.ToAccountID(a))
+		if err != nil {
+			panic(err)
+		}
+		if st.GetNonce() != nonces[string(a)] {
+			s.fail(fmt.Sprintf("state nonce of %s is %d but it executed %d transactions on the main chain", short(a), st.GetNonce(), nonces[string(a)]))
+		}
+	}
+	s.run.Eval(fmt.Sprintf("oracle %x %d", best.BlockHash(), ntx), ntx > 0)
+}
+
+func (s *session) pickTip() (*mblk, string) {
+	best := s.bestBlk()
+	if s.rng.Chance(3, 4) || len(s.blks) < 3 {
+		return best, "on-best"
+	}
+	var cands []*mblk
+	for _, b := range s.blks {
+		if !b.dead && b != best && b.height+4 > best.height {
+			cands = append(cands, b)
+		}
+	}
+	if len(cands) == 0 {
+		return best, "on-best"
+	}
+	return cands[s.rng.Intn(len(cands))], "on-side"
+}
+
+// fitting: already made transactions that would execute next on tip (used to put the same tx on two branches)
+func (s *session) fitting(tip *mblk) []*mtx {
+	var out []*mtx
+	for _, m := range s.txs {
+		if m.tx.Body == nil || len(m.tx.Body.Account) != types.AddressLength || !strings.HasPrefix(m.kind, "valid") && m.kind != "call-no-code" {
+			continue
+		}
+		if m.tx.Body.Nonce == s.nonceAt(tip, m.tx.Body.Account)+1 {
+			out = append(out, m)
+		}
+	}
+	return out
+}
+
+func (s *session) genBlock() {
+	tip, shape := s.pickTip()
+	rng := s.rng
+	var txs []*mtx
+	n := rng.Intn(5)
+	if rng.Chance(1, 10) {
+		n = 0
+	}
+	used := map[string]uint64{} // extra nonces consumed inside this block per sender, so that valid txs chain up
+	for i := 0; i < n; i++ {
+		switch {
+		case rng.Chance(1, 4):
+			if f := s.fitting(tip); len(f) > 0 {
+				m := f[rng.Intn(len(f))]
+				dup := false
+				for _, x := range txs {
+					if x == m {
+						dup = true
+					}
+				}
+				if !dup || rng.Chance(1, 6) { // rarely: the same tx twice in one block
+					txs = append(txs, m)
+				}
+				continue
+			}
+			fallthrough
+		case rng.Chance(1, 8):
+			// replay: any transaction made so far, typically already included below tip
+			if len(s.txs) > 0 {
+				txs = append(txs, s.txs[rng.Intn(len(s.txs))])
+			}
+		default:
+			m := s.genTx(tip)
+			// let a second valid tx of the same sender in this block take the following nonce
+			if strings.HasPrefix(m.kind, "valid") && used[string(m.tx.Body.Account)] > 0 && rng.Chance(3, 4) {
+				o := m.tx.Body
+				b := &types.TxBody{Nonce: o.Nonce + used[string(o.Account)], Account: o.Account, Recipient: o.Recipient, Amount: o.Amount,
+					Type: o.Type, ChainIdHash: o.ChainIdHash}
+				m = s.mk(txSpec{body: b, sig: sigSpec{mode: "k", key: s.acctIdx(b.Account)}, hash: hashSpec{mode: "self"}, kind: "valid-transfer"})
+			}
+			if strings.HasPrefix(m.kind, "valid") || m.kind == "call-no-code" {
+				used[string(m.tx.Body.Account)]++
+			}
+			txs = append(txs, m)
+		}
+	}
+	use := rng.Chance(1, 2)
+	// sometimes the pool already holds some of the block's transactions
+	if use {
+		for _, m := range txs {
+			if rng.Chance(1, 2) && tip == s.bestBlk() {
+				s.opAdmit(m)
+			}
+		}
+	}
+	s.opBlock(tip, txs, use, shape)
+}
+
+// failing block, then a block with a forged signature (and, other times, an empty block): the verdict the node uses
+// for a block must be the one computed for that block (4499f0c6).
+func (s *session) genAfterFailing() {
+	tip := s.bestBlk()
+	from := s.rng.Intn(nAcct)
+	to := (from + 1) % nAcct
+	next := s.nonceAt(tip, s.w.addrs[from]) + 1
+	mkT := func(nonce uint64, signer int, kind string) *mtx {
+		return s.mk(txSpec{body: &types.TxBody{Nonce: nonce, Account: s.w.addrs[from], Recipient: s.w.addrs[to], Amount: s.amount(),
+			Type: types.TxType_TRANSFER, ChainIdHash: s.cid}, sig: sigSpec{mode: "k", key: signer}, hash: hashSpec{mode: "self"}, kind: kind})
+	}
+	good := mkT(next, from, "valid-transfer")
+	bad := mkT(next+1+uint64(s.rng.Intn(3)), from, "nonce-gap")
+	x := []*mtx{bad}
+	if s.rng.Chance(1, 2) {
+		x = []*mtx{good, bad}
+	}
+	s.opBlock(tip, x, false, "failing")
+	switch s.rng.Intn(3) {
+	case 0:
+		forged := mkT(next, (from+1+s.rng.Intn(nAcct))%(nAcct+1), "wrong-key")
+		if bytes.Equal(forged.tx.Body.Sign, good.tx.Body.Sign) {
+			return
+		}
+		s.opBlock(tip, []*mtx{forged}, false, "forged-after-failing")
+	case 1:
+		s.opBlock(tip, nil, false, "empty-after-failing")
+	default:
+		s.opBlock(tip, []*mtx{good}, false, "valid-after-failing")
+	}
+	// and once more a valid one: it must not inherit a stale "failed" verdict either
+	tip = s.bestBlk()
+	f := s.fitting(tip)
+	if len(f) > 0 {
+		s.opBlock(tip, f[:1], false, "valid-after-that")
+	}
+}
+
+// a name moves to another account while a transaction signed by the old owner waits in the pool.
+func (s *session) genNameMove() {
+	w := s.w
+	tip := s.bestBlk()
+	A := s.rng.Intn(nAcct)
+	B := (A + 1 + s.rng.Intn(nAcct-1)) % nAcct
+	C := (B + 1) % nAcct
+	s.nameSeq++
+	nm := []byte(fmt.Sprintf("verifmove%03d", s.nameSeq%1000))
+	gov := func(acct int, nonce uint64, payload, cmd, kind string) *mtx {
+		return s.mk(txSpec{body: &types.TxBody{Nonce: nonce, Account: w.addrs[acct], Recipient: []byte(types.AergoName), Amount: aergo1.Bytes(),
+			Payload: []byte(payload), Type: types.TxType_GOVERNANCE, ChainIdHash: s.cid}, sig: sigSpec{mode: "k", key: acct}, hash: hashSpec{mode: "self"}, cmd: cmd, kind: kind})
+	}
+	xfer := func(acct []byte, signer int, nonce uint64, to int, amt *big.Int, kind string) *mtx {
+		return s.mk(txSpec{body: &types.TxBody{Nonce: nonce, Account: acct, Recipient: w.addrs[to], Amount: amt.Bytes(),
+			Type: types.TxType_TRANSFER, ChainIdHash: s.cid}, sig: sigSpec{mode: "k", key: signer}, hash: hashSpec{mode: "self"}, kind: kind})
+	}
+	na := s.nonceAt(tip, w.addrs[A])
+	nb := s.nonceAt(tip, w.addrs[B])
+	create := gov(A, na+1, fmt.Sprintf(`{"Name":"v1createName","Args":["%s"]}`, nm), "c:"+hx(nm), "name-create")
+	b1 := s.opBlock(tip, []*mtx{create}, false, "name-create")
+	if s.bestBlk() != b1 {
+		return
+	}
+	// the name is usable from the next block on: a transfer in its name signed by A, and one signed by B (refused)
+	okT := xfer(nm, A, na+2, C, big.NewInt(int64(1+s.rng.Intn(1000))), "named-sender-owner")
+	s.opExec(okT)
+	s.opBVerify(okT)
+	notOwner := xfer(nm, B, na+2, C, big.NewInt(3), "named-sender-not-owner")
+	s.opBVerify(notOwner)
+	s.opAdmit(notOwner)
+	// T: in the name, signed by A, nonce fitting B's account after the hand-over (B.nonce+1 then) and above A's
+	// nonce after it (so it survives in A's pool list)
+	want := nb + 3
+	if want < na+3 {
+		want = na + 3
+	}
+	T := xfer(nm, A, want, C, new(big.Int).Mul(aergo1, big.NewInt(int64(100+s.rng.Intn(400)))), "named-sender-former-owner")
+	s.opAdmit(T)
+	move := gov(A, na+2, fmt.Sprintf(`{"Name":"v1updateName","Args":["%s","%s"]}`, nm, types.EncodeAddress(w.addrs[B])), "u:"+hx(nm)+":"+hx(w.addrs[B]), "name-update")
+	txs := []*mtx{move}
+	for n := nb + 1; n < want; n++ {
+		txs = append(txs, xfer(w.addrs[B], B, n, C, big.NewInt(1), "valid-transfer"))
+	}
+	b2 := s.opBlock(b1, txs, s.rng.Chance(1, 2), "name-move")
+	if s.bestBlk() != b2 {
+		return
+	}
+	// the pool still holds T (verified against A); a block carrying T must be refused whether or not the pool is asked
+	s.opBVerify(T)
+	s.opExec(T)
+	out, ok := s.execOn(T, w.addrs[A]) // producer path: verified account A no longer is what the name resolves to
+	s.op(fmt.Sprintf("exec %d %s", T.tid, hx(w.addrs[A])), out, ok)
+	s.opBlock(b2, []*mtx{T}, true, "former-owner-tx-pool-hit")
+	if s.rng.Chance(1, 2) {
+		// the new owner uses the name
+		okB := xfer(nm, B, s.nonceAt(s.bestBlk(), w.addrs[B])+1, C, big.NewInt(9), "named-sender-owner")
+		s.opAdmit(okB)
+		s.opBlock(s.bestBlk(), []*mtx{okB}, true, "new-owner-tx")
+	}
+}
+
+func (s *session) runSession(nops int) {
+	s.n = s.w.newNode()
+	defer s.n.close()
+	gen := &mblk{bid: 0, blk: s.p.gen}
+	s.blks = []*mblk{gen}
+	s.byHash = map[string]*mblk{string(s.p.gen.BlockHash()): gen}
+	s.txs, s.ops, s.names = nil, nil, nil
+	s.pooled = map[string]int{}
+	bi := types.NewBlockHeaderInfoFromPrevBlock(s.p.gen, s.p.ts+1, config.AllEnabledHardforkConfig)
+	s.cid = bi.ChainIdHash()
+	_, accept := s.n.mp.VerifC04ChainIdHashes()
+	var addrs []string
+	for _, a := range s.w.addrs[:nAcct] {
+		addrs = append(addrs, hx(a))
+	}
+	s.op(fmt.Sprintf("new %s %s 0 %s %s", hx(s.cid), hx(accept), genesisBalance.String(), strings.Join(addrs, " ")), "ok", false)
+	s.opState()
+	for i := 0; i < nops; i++ {
+		k := s.rng.Intn(100)
+		switch {
+		case k < 40:
+			s.genBlock()
+		case k < 46:
+			s.genAfterFailing()
+		case k < 52:
+			s.genNameMove()
+		case k < 64:
+			s.opAdmit(s.genTx(s.bestBlk()))
+		default:
+			var m *mtx
+			if len(s.txs) > 0 && s.rng.Chance(1, 2) {
+				m = s.txs[s.rng.Intn(len(s.txs))]
+			} else {
+				m = s.genTx(s.bestBlk())
+			}
+			switch s.rng.Intn(4) {
+			case 0:
+				s.opValidate(m)
+			case 1:
+				s.opVerify(m)
+			case 2:
+				s.opBVerify(m)
+			default:
+				s.opExec(m)
+			}
+		}
+	}
+}
 
 func main() {
 	zerolog.SetGlobalLevel(zerolog.Disabled)
-	run := vh.Start("c04", "probe")
+	run := vh.Start("c04", "sessions on a real ChainService + MemPool (5 funded accounts with real secp256k1 keys, 1 outsider key): blocks on the best "+
+		"block and on side branches (reorganisations, same tx on both branches), built from valid transfers / calls / name create+update, replays of "+
+		"included txs, wrong-key and moved signatures, foreign chain id / other fork version, nonce gaps / duplicates / zero, name senders (owner, "+
+		"not owner, unregistered, former owner after a hand-over), altered-after-hash, field-boundary shifts, failing block followed by forged / empty "+
+		"/ valid block; pool admissions; Validate / VerifyTx / block-level verifyTx / bare executeTx on the same txs. non-trivial = accepted / "+
+		"executed; distinct by (op, answer). Oracle after every block on the node's own main chain.")
 	defer run.Finish()
 	w := newWorld(filepath.Join(run.Out, "nodes"))
-	p := w.newProducer()
-	n := w.newNode()
-	A, B, C := 0, 1, 2
-	name := []byte("verifname001")
-	cid := func(parent *types.Block) []byte { return p.bi(parent).ChainIdHash() }
-
-	// block 1: A creates the name
-	t1 := w.tx(A, &types.TxBody{Nonce: 1, Account: w.addrs[A], Recipient: []byte(types.AergoName), Amount: aergo1.Bytes(),
-		Payload: []byte(`{"Name":"v1createName","Args":["verifname001"]}`), Type: types.TxType_GOVERNANCE, ChainIdHash: cid(p.gen)})
-	b1, errs := p.build(p.gen, []*types.Tx{t1})
-	fmt.Println("b1 build", errs, "add:", n.add(b1))
-	// pool: T = named-sender transfer of 500 aergo to C, signed by A, nonce 3
-	amt := new(big.Int).Mul(aergo1, big.NewInt(500))
-	T := w.tx(A, &types.TxBody{Nonce: 3, Account: name, Recipient: w.addrs[C], Amount: amt.Bytes(), Type: types.TxType_TRANSFER, ChainIdHash: cid(b1)})
-	fmt.Println("admit T:", n.admit(T))
-	// block 2: A hands the name to B; B sends two txs
-	t2 := w.tx(A, &types.TxBody{Nonce: 2, Account: w.addrs[A], Recipient: []byte(types.AergoName), Amount: aergo1.Bytes(),
-		Payload: []byte(fmt.Sprintf(`{"Name":"v1updateName","Args":["verifname001","%s"]}`, types.EncodeAddress(w.addrs[B]))), Type: types.TxType_GOVERNANCE, ChainIdHash: cid(b1)})
-	t3 := w.tx(B, &types.TxBody{Nonce: 1, Account: w.addrs[B], Recipient: w.addrs[C], Amount: big.NewInt(1).Bytes(), Type: types.TxType_TRANSFER, ChainIdHash: cid(b1)})
-	t4 := w.tx(B, &types.TxBody{Nonce: 2, Account: w.addrs[B], Recipient: w.addrs[C], Amount: big.NewInt(1).Bytes(), Type: types.TxType_TRANSFER, ChainIdHash: cid(b1)})
-	b2, errs := p.build(b1, []*types.Tx{t2, t3, t4})
-	fmt.Println("b2 build", errs, "add:", n.add(b2))
-	fmt.Println("T still in pool:", n.mp.VerifC04Exist(T.Hash) != nil)
-	// block 3 (byzantine producer): includes T
-	b3, errs := p.build(b2, []*types.Tx{T})
-	fmt.Println("b3 build", errs)
-	bal := func(n *node, i int) string {
-		st, _ := n.cs.SDB().GetStateDB().GetAccountState(types.ToAccountID(w.addrs[i]))
-		return fmt.Sprintf("nonce=%d bal=%s", st.GetNonce(), new(big.Int).SetBytes(st.GetBalance()))
+	s := &session{run: run, rng: run.Rng, w: w, p: w.newProducer()}
+	nsess := run.Pick(30, 300)
+	for i := 0; i < nsess; i++ {
+		s.runSession(run.Pick(28, 40))
 	}
-	n2 := w.newNode()
-	for _, b := range []*types.Block{b1, b2} {
-		if err := n2.add(b); err != nil {
-			panic(err)
-		}
-	}
-	fmt.Println("node without T in its pool: add b3:", n2.add(b3), " B:", bal(n2, B))
-	fmt.Println("node with T in its pool:    add b3:", n.add(b3), " B:", bal(n, B))
-	var e *chain.ErrBlock
-	_ = errors.As(nil, &e)
+	os.RemoveAll(w.root)
 }
